@@ -22,9 +22,9 @@ from . import lockskel
 
 KINDS = ("mutex", "rwlock")
 
-MUTEX_OPS = [("l", 5), ("lh", 2), ("tl", 3), ("al", 4), ("ap", 4), ("ad", 2), ("yw", 2)]
+MUTEX_OPS = [("l", 5), ("lh", 2), ("tl", 3), ("al", 4), ("ap", 4), ("ad", 2), ("yw", 2), ("ys", 2)]
 RW_OPS = [("r", 4), ("w", 4), ("rh", 1), ("wh", 2), ("tr", 2), ("tw", 2), ("ar", 3), ("aw", 3),
-          ("apr", 3), ("apw", 3), ("ad", 2), ("yw", 2)]
+          ("apr", 3), ("apw", 3), ("ad", 2), ("yw", 2), ("ys", 2)]
 
 # minimal interesting programs; they run first (and are the mutation witnesses of docs/C10.md)
 MUTEX_CORPUS = [
@@ -36,6 +36,8 @@ MUTEX_CORPUS = [
     ("m", "T: lh | T: ap yw ad | T: l"),
     ("m", "T: l | T: ap yw ad | T: ap yw ad | T: al"),
     ("m", "T: lh | T: al | T: al"),
+    ("m", "T: lh | T: al | T: tl tl tl"),        # woken async waiter loses to a barging try_lock and must be re-armed
+    ("r", "T: lh | T: ap yw ap yw ap | T: tl tl tl tl"),
     ("m", "T: l | T: tl tl | T: l"),
     ("m", "T: tl | T: tl tl | T: lh"),
     ("m", "T: lh | T: ap ap ad l | T: al tl"),
@@ -50,6 +52,9 @@ RW_CORPUS = [
     ("m", "T: rh | T: apw yw ad | T: ar"),
     ("m", "T: wh | T: apr yw ad | T: aw"),
     ("m", "T: w | T: apw yw ad | T: w | T: ar"),
+    ("r", "T: rh | T: apw ys ad | T: ar"),       # queued writer future dropped un-woken: HAS_QUEUED stays for the reader behind it
+    ("r", "T: rh | T: apw ys ad | T: apr yw"),
+    ("r", "T: rh | T: apw ys ys ad | T: ar | T: ar"),
     ("m", "T: wh | T: ar | T: ar | T: aw"),
     ("m", "T: tr tw | T: tw tr | T: wh"),
     ("b", "T: wh r | T: w rh | T: r w"),
